@@ -16,6 +16,7 @@ import (
 	"verif/engine/props/c07"
 	"verif/engine/props/c08"
 	"verif/engine/props/c09"
+	"verif/engine/props/c10"
 	"verif/engine/props/c11"
 	"verif/engine/props/c12"
 	"verif/engine/props/c13"
@@ -44,6 +45,7 @@ var checks = map[string]struct {
 	"C07": {"model_checking", c07.Run},
 	"C08": {"model_checking", c08.Run},
 	"C09": {"model_checking", c09.Run},
+	"C10": {"model_checking", c10.Run},
 	"C11": {"translation_validation", c11.Run},
 	"C12": {"model_checking", c12.Run},
 	"C13": {"model_checking", c13.Run},
